@@ -8,6 +8,7 @@ structure St where
   sc : Scopes := {}
   msg : Option Msg := none
   tf : List (Text × Text) := []     -- strftime table of the current message: format → result
+  gids : List Nat := []             -- the ids `Logging::addAttribute` returned to the application, in call order
 
 def typIndex : FieldType → Nat
   | .constant => 0 | .date => 1 | .time => 2 | .time_ms => 3 | .time_us => 4 | .dateTime => 5
@@ -147,8 +148,14 @@ def step (s : St) (line : String) : St × String :=
     | _, _ => (s, "bad-op")
   | ["attr", "global", n, v] =>
     match hexDecode n, hexDecode v with
-    | some n, some v => evStep s (.global n v)
+    | some n, some v => evStep { s with gids := s.gids ++ [s.sc.next] } (.global n v)
     | _, _ => (s, "bad-op")
+  | ["attr", "removeentry", j] =>          -- removeAttributeEntry( id returned by the j-th addAttribute call )
+    match j.toNat?.bind (s.gids[·]?) with
+    | some k => evStep s (.removeId k)
+    | none => (s, "bad-op")
+  | ["attr", "removeunknown"] =>           -- removeAttributeEntry( an id that was never handed out )
+    evStep s (.removeId (s.sc.next + 1000))
   | ["attr", "remove", n] =>
     match hexDecode n with
     | some n => evStep s (.remove n)
@@ -162,6 +169,10 @@ def step (s : St) (line : String) : St × String :=
     | some n, some v => evStep s (.push n v)
     | _, _ => (s, "bad-op")
   | ["scope", "pop"] => evStep s .pop
+  | ["scope", "copydrop", i] =>            -- a copy of live scope object number i is made and destroyed
+    match i.toNat?.bind (s.sc.live[·]?) with
+    | some k => evStep s (.removeId k)
+    | none => (s, "bad-op")
   | ["scope", "drop", i] =>
     match i.toNat? with
     | some i => evStep s (.drop i)
